@@ -145,8 +145,8 @@ func (pass Unspec) AsCompilerPass() *compiler.Unspec {
 }
 
 type ReplaceReference struct {
-	From string // Expected format: [package].[object]
-	To   string // Expected format: [package].[object]
+	From string `jsonschema:"required"` // Expected format: [package].[object]
+	To   string `jsonschema:"required"` // Expected format: [package].[object]
 }
 
 func (pass ReplaceReference) AsCompilerPass() (*compiler.ReplaceReference, error) {
@@ -244,7 +244,7 @@ func (pass Omit) AsCompilerPass() (*compiler.Omit, error) {
 
 type AddFields struct {
 	// Expected format: [package].[object]
-	To     string
+	To     string `jsonschema:"required"`
 	Fields []ast.StructField
 }
 
@@ -267,7 +267,7 @@ func (pass AddFields) AsCompilerPass() (*compiler.AddFields, error) {
 }
 
 type NameAnonymousStruct struct {
-	Field string // Expected format: [package].[object].[field]
+	Field string `jsonschema:"required"` // Expected format: [package].[object].[field]
 	As    string
 }
 
@@ -284,8 +284,8 @@ func (pass NameAnonymousStruct) AsCompilerPass() (*compiler.NameAnonymousStruct,
 }
 
 type RetypeObject struct {
-	Object   string // Expected format: [package].[object]
-	As       ast.Type
+	Object   string   `jsonschema:"required"` // Expected format: [package].[object]
+	As       ast.Type `jsonschema:"required"`
 	Comments []string
 }
 
@@ -307,7 +307,7 @@ func (pass RetypeObject) AsCompilerPass() (*compiler.RetypeObject, error) {
 }
 
 type HintObject struct {
-	Object string // Expected format: [package].[object]
+	Object string `jsonschema:"required"` // Expected format: [package].[object]
 	Hints  ast.JenniesHints
 }
 
@@ -324,8 +324,8 @@ func (pass HintObject) AsCompilerPass() (*compiler.HintObject, error) {
 }
 
 type DuplicateObject struct {
-	Object     string // Expected format: [package].[object]
-	As         string
+	Object     string   `jsonschema:"required"` // Expected format: [package].[object]
+	As         string   `jsonschema:"required"`
 	OmitFields []string `yaml:"omit_fields"`
 }
 
@@ -348,8 +348,8 @@ func (pass DuplicateObject) AsCompilerPass() (*compiler.DuplicateObject, error) 
 }
 
 type AddObject struct {
-	Object   string // Expected format: [package].[object]
-	As       ast.Type
+	Object   string   `jsonschema:"required"` // Expected format: [package].[object]
+	As       ast.Type `jsonschema:"required"`
 	Comments []string
 }
 
@@ -371,7 +371,7 @@ func (pass AddObject) AsCompilerPass() (*compiler.AddObject, error) {
 }
 
 type RenameObject struct {
-	From string // Expected format: [package].[object]
+	From string `jsonschema:"required"` // Expected format: [package].[object]
 	To   string
 }
 
@@ -388,8 +388,8 @@ func (pass RenameObject) AsCompilerPass() (*compiler.RenameObject, error) {
 }
 
 type RetypeField struct {
-	Field    string // Expected format: [package].[object].[field]
-	As       ast.Type
+	Field    string   `jsonschema:"required"` // Expected format: [package].[object].[field]
+	As       ast.Type `jsonschema:"required"`
 	Comments []string
 }
 
